@@ -140,6 +140,24 @@ pub fn eval(src: &str) -> Result<Value, String> {
   }
 }
 
+/// like `eval` with the transition limit lowered and the FSM trace collected:
+/// returns (result, the `state=` text of every `[trace][fsm][step]` event)
+pub fn eval_fsm(src: &str, max_steps: usize) -> (Result<Value, String>, Vec<String>) {
+  let tree = match parse_code(src) { Ok(t) => t, Err(e) => return (Err(e), vec![]) };
+  let mut intrp = Interpreter::new(0);
+  intrp.max_steps = max_steps;
+  intrp.trace = true;
+  intrp.trace_to_stdout = false;
+  let r = match std::panic::catch_unwind(std::panic::AssertUnwindSafe(|| intrp.interpret(&tree))) {
+    Ok(Ok(v)) => Ok(v),
+    Ok(Err(e)) => Err(e.kind_name().to_string()),
+    Err(_) => Err("hostpanic".to_string()),
+  };
+  let steps: Vec<String> = intrp.trace_events().iter().filter(|e| e.channel.as_deref() == Some("fsm") && e.label.as_deref().map(|l| l.trim()) == Some("step"))
+    .map(|e| e.message.clone()).collect();
+  (r, steps)
+}
+
 pub fn eval_obs(src: &str) -> String {
   match eval(src) { Ok(v) => canon(&v), Err(e) => format!("err:{}", e) }
 }
